@@ -177,8 +177,8 @@ func sortDecls(fds []*ast.FuncDecl) {
 // R18DiagsReachResult — diagnostics produced on the profile load path are returned or known to be free of errors.
 func R18DiagsReachResult(c *Ctx) {
 	const rule = "R18-diags-reach-result"
-	c.R.Rule(rule, "in hclsimple (Decode, DecodeFile) and pkg/profile, for every call that yields hcl.Diagnostics or error into a variable, every return that can follow it either returns a value built from that result or lies on the path where its HasErrors()/!= nil test was negative: a profile with syntax errors is never reported as loaded", 3)
-	inScope := func(p string) bool { return p == PkgYaotl+"/hclsimple" || p == PkgProfile }
+	c.R.Rule(rule, "in hclsimple (Decode, DecodeFile), gohcl and pkg/profile, for every call that yields hcl.Diagnostics or error into a variable, every return that can follow it either returns a value built from that result or lies on the path where its HasErrors()/!= nil test was negative: a profile with syntax errors is never reported as loaded", 3)
+	inScope := func(p string) bool { return p == PkgYaotl+"/hclsimple" || p == PkgProfile || p == PkgYaotl+"/gohcl" }
 	n := 0
 	for _, fn := range c.P.ModuleFuncs(inScope) {
 		for _, b := range fn.Blocks {
